@@ -17,12 +17,18 @@ import (
 
 var c02Sizes = []int{0, 1, 17, 65535}
 var c02Index = []int{0, 499, 500}
+var c02Distances = []int{1, 2, 3, 63, 64, 65, 127, 128, 129, 255, 256, 257, 383, 384, 385, 499, 500, 501, 511, 512, 513, 999, 1000, 1001, 1023, 1024, 1025}
 
 func init() {
 	simrt.Register(&simrt.Scenario{
 		Prop: "C02", Name: "bit-flips", Enumerated: true, Count: fixed(len(c02Sizes) * len(c02Index) * 2),
 		Run: c02BitFlips, MaxOps: 1 << 40, Serial: true, Horizon: time.Hour,
 		Doc: "every single-bit flip of one full wire record (18-byte header + body + 16-byte MAC) for body sizes {0,1,17,65535}, at record index {0,499,500} (around the first key rotation), XX and KK sessions (quick tier: body bits of the 65535-byte record sampled every 101st bit, thorough: all)",
+	})
+	simrt.Register(&simrt.Scenario{
+		Prop: "C02", Name: "replay-at-distance", Enumerated: true, Count: fixed(2 * 2 * len(c02Distances)),
+		Run: c02DistanceReplay, MaxOps: 1 << 40, Serial: true, Horizon: time.Hour,
+		Doc: "a recorded record k is delivered again in place of record k+d, for every distance d in {1,2,3,63,64,65,127,128,129,255,256,257,383,384,385,499,500,501,511,512,513,999,1000,1001,1023,1024,1025} (every place where a truncated or wrapping nonce counter would repeat), k in {0,5}, XX and KK: never returned as valid",
 	})
 	simrt.Register(&simrt.Scenario{
 		Prop: "C02", Name: "replay-across-rotation", Enumerated: true, Count: fixed(2 * 3 * 4),
@@ -469,4 +475,53 @@ func c02RotationReplay(rc *simrt.RunCtx) {
 	rc.Sample("kk=%v layout=%d: record %d replayed at positions %d and %d of a %d-record stream: rejected", kk, layout, k, k+500, k+1000, total)
 	rc.Progress()
 	rc.Fault(fmt.Sprintf("rotation-replay-%d", idx))
+}
+
+func c02DistanceReplay(rc *simrt.RunCtx) {
+	idx := rc.Idx()
+	kk := idx%2 == 1
+	k := []int{0, 5}[(idx/2)%2]
+	d := c02Distances[(idx/4)%len(c02Distances)]
+	s := establish(rc, kk, 32)
+	if s == nil {
+		return
+	}
+	w, r := s.cli.conn.noise, s.srv.conn.noise
+	pos := k + d
+	var recs [][]byte
+	for i := 0; i <= pos+1; i++ {
+		var buf bytes.Buffer
+		if err := w.WriteMessage(marker(uint64(i%7)+3, 20)); err != nil {
+			rc.HarnessError("WriteMessage: %v", err)
+			return
+		}
+		if _, err := w.Flush(&buf); err != nil {
+			rc.HarnessError("Flush: %v", err)
+			return
+		}
+		recs = append(recs, append([]byte(nil), buf.Bytes()...))
+	}
+	var stream bytes.Buffer
+	for i := 0; i < pos; i++ {
+		stream.Write(recs[i])
+	}
+	stream.Write(recs[k])
+	stream.Write(recs[pos+1])
+	for i := 0; i < pos; i++ {
+		if _, err := r.ReadMessage(&stream); err != nil {
+			rc.Violate("c02.rotation", "authentic-record-rejected", "kk=%v: authentic record %d of a long stream does not decrypt: %v", kk, i, err)
+			return
+		}
+	}
+	if got, err := r.ReadMessage(&stream); err == nil {
+		rc.Violate("c02.replay-accepted", "replay-at-distance", "kk=%v: record %d delivered again in place of record %d (distance %d) was returned as valid (%d bytes)", kk, k, pos, d, len(got))
+		return
+	}
+	if _, err := r.ReadMessage(&stream); err == nil {
+		rc.Violate("c02.valid-after-error", "replay-at-distance", "kk=%v: after the rejected replay at distance %d the next record was returned as valid", kk, d)
+		return
+	}
+	rc.Sample("kk=%v: record %d replayed in place of record %d (distance %d): rejected", kk, k, pos, d)
+	rc.Progress()
+	rc.Fault(fmt.Sprintf("replay-distance-%d", idx))
 }
